@@ -9,7 +9,8 @@ Line protocol for the server ledger model (domain `hostile`).
   hostile in <c> malformed|skipped|response|eof|idle|httpOther
   hostile in <c> frame <ch> | httpGet <cookie> | httpPost <cookie> <fresh> | ws <0|1>
   hostile sesstimeout <s>
-  hostile ledger                                 → L <conns> <sessions> <udpRtp> <udpRtcp> <readers> <active> <writers> <mcast> <httpRead>
+  hostile timeouts <conns> <sessions>           (several time-outs in one observation window)
+  hostile ledger                                 → L <conns> <sessions> <udpRtp> <udpRtcp> <readers> <active> <mcast> <httpRead>
 
 Output of an event: `<answer> cc=<closed conns> co=<opened conns> so=<opened sessions> sc=<closed sessions> | L <conns> <sessions> <udpRtp> <udpRtcp> <readers> <active>`
 where `<answer>` is `rtsp:<status>`, `http:<status>`, `ws`, `consumed` or `none`; lists are sorted, `-` when empty.
@@ -137,9 +138,18 @@ def mk : IO Handler := do
       match s.toNat? with
       | some s => ev (.sessTimeout s)
       | none => return "bad-op"
+    | ["timeouts", cs, ss] =>
+      -- several time-outs observed in one window: read deadlines of connections, then sessions
+      match parseNatList cs, parseNatList ss with
+      | some cs, some ss =>
+        let evs := cs.map (fun c => Event.input c .idle) ++ ss.map Event.sessTimeout
+        let (st, outs) := run (← ref.get) evs
+        ref.set st
+        return s!"{showOuts outs} | {showLedger st}"
+      | _, _ => return "bad-op"
     | ["ledger"] =>
       let st ← ref.get
-      return s!"{showLedger st} {st.writers.length} {st.mcast} {st.httpRead.length}"
+      return s!"{showLedger st} {st.mcast} {st.httpRead.length}"
     | _ => return "bad-op"
 
 end Rtsp.Drv.Ledger
